@@ -148,6 +148,9 @@ func loadAddr(i *interpreter, T types.Type, addr value) value {
 			if _, shared := i.tree.shared[a]; shared {
 				return i.tree.cellOp(i.curFrame, "load", a, nil, true, "")
 			}
+			if v, done := i.tree.sharedAccess(i.curFrame, a, false, nil); done {
+				return v
+			}
 		}
 		return load(T, a)
 	case symElemPtr:
@@ -165,6 +168,9 @@ func storeAddr(i *interpreter, T types.Type, addr value, v value) {
 		if i.tree != nil {
 			if _, shared := i.tree.shared[a]; shared {
 				i.tree.cellOp(i.curFrame, "store", a, []value{v}, true, "")
+				return
+			}
+			if _, done := i.tree.sharedAccess(i.curFrame, a, true, v); done {
 				return
 			}
 		}
